@@ -1,37 +1,40 @@
 /-
-  MpProofs/StrFrom.lean — `from_str` on plain decimal literals: reduction to the exact branch.
+  MpProofs/StrFrom.lean — `from_str` on decimal literals: reduction to the exact branch and its rounding.
 -/
 import MpProofs.Str
+import MpProofs.Arith
+import MpProofs.Div
 
 namespace Mp
-
-/-- hypothesis (proved for the arithmetic core, property C02/C03): `from_int` rounds correctly -/
-def FromIntRounds : Prop :=
-  ∀ (n : Int) (prec : Int) (rnd : Rnd), 0 < prec → RoundOK prec rnd (n : ℚ) (from_int n prec rnd)
-
-/-- hypothesis (proved for the arithmetic core): `from_rational` (= `mpf_div` of two exact integers)
-rounds correctly -/
-def FromRationalRounds : Prop :=
-  ∀ (p q : Int) (prec : Int) (rnd : Rnd), 0 < prec → 0 < q →
-    ∃ r, from_rational p q prec rnd = .ok r ∧ RoundOK prec rnd ((p : ℚ) / (q : ℚ)) r
 
 theorem not_litChar_n : ¬ LitChar 'n' := by unfold LitChar; decide
 theorem not_litChar_slash : ¬ LitChar '/' := by unfold LitChar; decide
 
-/-- On a plain decimal literal with `|exp| ≤ 400`, `from_str` takes the exact branch with the parser's
+/-- On a decimal literal with `|exp| ≤ 400`, `from_str` takes the exact branch with the parser's
 `(man, exp)`. -/
-theorem fromStr_plain {l : List Char} {v : ℚ} (h : decValueL l = some v)
+theorem fromStr_plain {l : List Char} {v : ℚ} (h : decValueU l = some v)
     {man exp : Int} (hme : strToManExp l 0 = .ok (man, exp)) (hexp : exp.natAbs ≤ 400)
     (prec : Int) (rnd : Rnd) :
     fromStr l prec rnd 0 =
       if exp ≥ 0 then .ok (from_int (man * (10 : Int) ^ exp.toNat) prec rnd)
       else from_rational man ((10 : Int) ^ (-exp).toNat) prec rnd := by
-  obtain ⟨sg, ip, dot, fp, eo, hok, hmap, -, -⟩ := decValueL_shape h
-  have hall := litL_litChar hok
+  have hch := decValueU_chars h
   have hx : stripL isSpaceStrip (l.map lowerC) = l.map lowerC := by
-    rw [hmap]; exact stripL_eq_self_of_forall (fun c hc => (hall c hc).not_spaceStrip)
-  have hn : 'n' ∉ l.map lowerC := by rw [hmap]; exact fun hm => not_litChar_n (hall _ hm)
-  have hs : '/' ∉ l.map lowerC := by rw [hmap]; exact fun hm => not_litChar_slash (hall _ hm)
+    apply stripL_eq_self_of_forall
+    intro c hc
+    rcases hch c hc with rfl | hl
+    · decide
+    · exact hl.not_spaceStrip
+  have hn : 'n' ∉ l.map lowerC := by
+    intro hm
+    rcases hch _ hm with hu | hl
+    · exact absurd hu (by decide)
+    · exact not_litChar_n hl
+  have hs : '/' ∉ l.map lowerC := by
+    intro hm
+    rcases hch _ hm with hu | hl
+    · exact absurd hu (by decide)
+    · exact not_litChar_slash hl
   have h1 : l.map lowerC ≠ "inf".toList := fun he => hn (by rw [he]; decide)
   have h2 : l.map lowerC ≠ "+inf".toList := fun he => hn (by rw [he]; decide)
   have h3 : l.map lowerC ≠ "-inf".toList := fun he => hn (by rw [he]; decide)
@@ -42,14 +45,12 @@ theorem fromStr_plain {l : List Char} {v : ℚ} (h : decValueL l = some v)
   rw [if_neg (by omega)]
 
 /-- **Exact branch of `from_str`.** If the parser's exponent satisfies `|exp| ≤ 400`, the result is the
-correctly rounded value of the literal — given that `from_int` and `from_rational` round correctly. -/
-theorem fromStr_exact_round (hInt : FromIntRounds) (hRat : FromRationalRounds)
-    {l : List Char} {v : ℚ} (h : decValueL l = some v)
-    (hnd : v ≠ 0 ∨ ∃ c r, dropSign l = c :: r ∧ isDigitC c = true)
+correctly rounded value of the literal, in every rounding mode. -/
+theorem fromStr_exact_round {l : List Char} {v : ℚ} (h : decValueU l = some v)
     {man exp : Int} (hme : strToManExp l 0 = .ok (man, exp)) (hexp : exp.natAbs ≤ 400)
     (prec : Int) (rnd : Rnd) (hprec : 0 < prec) :
     ∃ r, fromStr l prec rnd 0 = .ok r ∧ RoundOK prec rnd v r := by
-  obtain ⟨m', e', h', hval⟩ := strToManExp_value h hnd
+  obtain ⟨m', e', h', hval⟩ := strToManExp_value h
   rw [hme] at h'
   obtain ⟨rfl, rfl⟩ : man = m' ∧ exp = e' := by
     have := Except.ok.inj h'
@@ -58,7 +59,7 @@ theorem fromStr_exact_round (hInt : FromIntRounds) (hRat : FromRationalRounds)
   by_cases he : exp ≥ 0
   · rw [if_pos he]
     refine ⟨_, rfl, ?_⟩
-    have := hInt (man * (10 : Int) ^ exp.toNat) prec rnd hprec
+    have := from_int_spec (man * (10 : Int) ^ exp.toNat) (le_of_lt hprec) rnd
     have hcast : (((man * (10 : Int) ^ exp.toNat : Int)) : ℚ) = v := by
       rw [← hval]
       push_cast
@@ -66,8 +67,8 @@ theorem fromStr_exact_round (hInt : FromIntRounds) (hRat : FromRationalRounds)
       rw [← zpow_natCast, Int.toNat_of_nonneg he]
     rwa [hcast] at this
   · rw [if_neg he]
-    have hq : (0 : Int) < (10 : Int) ^ (-exp).toNat := by positivity
-    obtain ⟨r, hr, hok⟩ := hRat man ((10 : Int) ^ (-exp).toNat) prec rnd hprec hq
+    have hq : ((10 : Int) ^ (-exp).toNat) ≠ 0 := by positivity
+    obtain ⟨r, hr, hok⟩ := from_rational_spec man ((10 : Int) ^ (-exp).toNat) hq hprec rnd
     refine ⟨r, hr, ?_⟩
     have hcast : (man : ℚ) / (((10 : Int) ^ (-exp).toNat : Int) : ℚ) = v := by
       rw [← hval]
